@@ -150,6 +150,40 @@ def audit(prop, entry):
     return res, out
 
 
+def tie_audit(prop, entry):
+    """Which code-model definitions do the property's theorem STATEMENTS mention, and does the compiled driver execute
+    each of them (lean/TieAudit.lean)?  -> dict(statement_definitions, executed_by_driver, compositions, not_executed) or None"""
+    thms = entry.get("theorems", [])
+    mods = entry.get("modules", []) + entry.get("gen_modules", [])
+    path = os.path.join(WORK, f"Tie_{prop}.lean")
+    with open(path, "w") as f:
+        f.write("import TieAudit\n")
+        for m in mods:
+            f.write(f"import {m}\n")
+        f.write("#eval TieAudit.run [%s]\n" % ", ".join("`" + t for t in thms))
+    try:
+        r = subprocess.run(["lake", "env", "lean", path], cwd=LEAN, capture_output=True, text=True, timeout=900)
+    except subprocess.TimeoutExpired:
+        return None
+    ment, comp, unt, seen = set(), set(), {}, 0
+    for line in r.stdout.splitlines():
+        if not line.startswith("{"):
+            continue
+        try:
+            d = json.loads(line)
+        except ValueError:
+            continue
+        seen += 1
+        ment.update(d.get("mentions", []))
+        comp.update(d.get("compositions", []))
+        for u in d.get("untied", []):
+            unt.setdefault(u, []).append(d["theorem"])
+    if seen != len(thms):
+        return None
+    return {"statement_definitions": len(ment), "executed_by_driver": len(ment) - len(comp) - len(unt),
+            "compositions_of_executed_definitions": sorted(comp), "not_executed": {k: v[:3] for k, v in sorted(unt.items())}}
+
+
 # --------------------------------------------------------------------------------------
 # E2: driver access
 # --------------------------------------------------------------------------------------
@@ -450,6 +484,7 @@ def main(argv=None):
     translator_problems = []
     witness_ok, witness_bad = [], []
     audit_res = {}
+    tie_res = None
     build_out = ""
     # ---- E1 -----------------------------------------------------------------------
     if not a.no_build:
@@ -466,7 +501,7 @@ def main(argv=None):
                 # model classes the tie to the source is then broken, and that is an obligation, not a note
                 if prop in SCHEMA_PROPS:
                     translator_problems = list(tr["problems"])
-            ok_model, out_model = lake_build(["driver"])
+            ok_model, out_model = lake_build(["driver", "TieAudit"])
             if not ok_model:
                 log(out_model[-6000:])
                 print(f"INFRA-ERROR property={prop} the model/driver does not build")
@@ -482,6 +517,7 @@ def main(argv=None):
             scan = source_scan()
             if all(ok_mods.get(m) for m in mods + gen_mods):
                 audit_res, audit_out = audit(prop, {"theorems": entry.get("theorems", []), "modules": mods + gen_mods})
+                tie_res = tie_audit(prop, entry)
             else:
                 good = [m for m in mods + gen_mods if ok_mods[m]]
                 audit_res, audit_out = audit(prop, {"theorems": entry.get("theorems", []), "modules": good})
@@ -509,6 +545,14 @@ def main(argv=None):
             obligations.append("translator: every class attribute of ofxtools.models is represented in the generated schema")
             if translator_problems:
                 proof_fail.append(("translator", "; ".join(translator_problems[:6])))
+            else:
+                discharged.append(obligations[-1])
+        if tie_res is not None:
+            obligations.append("tie: every model definition the theorems' statements mention is executed by the compiled driver "
+                               "(or is a non-recursive composition of executed definitions), hence compared with the implementation")
+            if tie_res["not_executed"]:
+                proof_fail.append(("tie", "model definitions in theorem statements that the driver never executes: "
+                                   + ", ".join(list(tie_res["not_executed"])[:8])))
             else:
                 discharged.append(obligations[-1])
         obligations.append("source-scan: no sorry/admit/axiom/native_decide/bv_decide/implemented_by/unsafe/maxHeartbeats 0")
@@ -622,6 +666,7 @@ def main(argv=None):
             "exhaustive_spaces": ctx.exhaustive,
             "exhaustive": bool(ctx.exhaustive) and tier == "thorough",
             "implementation_lines": impl_cov.summary(),
+            "tie_audit": tie_res if tie_res is not None else {"note": "not run (a module did not build, or --no-build)"},
             "notes": ctx.notes + ([{"harness_crash": infra[-1500:]}] if infra else []),
         },
         "assumptions": entry.get("assumptions", []),
